@@ -363,8 +363,85 @@ def do_check(variant):
     return check
 
 
+# ---- BuildTask.cmake_build_sys.build_sys (cosette/code.py): configure, then build only if configure exited with zero
+CODEF = 'valjean/cosette/code.py'
+
+
+def build_world():
+    w = make_world()
+    w.class_models['BuildTask'] = type('BuildTask', (ClassModel,), {'name': 'BuildTask', 'fields': {}})(w)
+
+    def run_model(I, clis, **kwargs):
+        '''run() through its verified contract (unit run) for ONE command line: one return code, DONE iff it is zero; OSError when the command cannot be started'''
+        I.trace.append(('run', clis, kwargs))
+        if I.path.cond(z3.Bool(I.path.name('cmake_cannot_be_started'))):
+            I.raise_('OSError')
+        code = I.fresh(INT, 'return_code')
+        D, F = I.world.enum_const('TaskStatus', 'DONE'), I.world.enum_const('TaskStatus', 'FAILED')
+        status = SV(T('Enum', 'TaskStatus'), z3.If(code.t == 0, D.t, F.t))
+        I.codes.append(code)
+        return ([code], status, I.fresh(NUM, 'elapsed'))
+    w.globals['run'] = run_model
+    return w
+
+
+def build_setup(I, scope):
+    I.trace, I.codes = [], []
+    scope.set('self', I.alloc('BuildTask', {'CMAKE': 'cmake'}))
+    scope.set('targets', None)
+    scope.set('configure_flags', None)
+    scope.set('build_flags', None)
+    scope.set('source_dir', I.fresh(STR, 'source_dir'))
+    scope.set('build_dir', I.fresh(STR, 'build_dir'))
+    scope.set('log', I.alloc('File', {}))
+
+
+def c_build_sys():
+    return Contract(CODEF, 'BuildTask.cmake_build_sys.build_sys', params={}, returns='Enum:TaskStatus', signals={'OSError': True})
+
+
+def c_checkout_vcs():
+    return Contract(CODEF, 'CheckoutTask.__init__.checkout_vcs', params={}, returns='Enum:TaskStatus', signals={'OSError': True})
+
+
+def checkout_setup(I, scope):
+    I.trace, I.codes = [], []
+    scope.set('self', I.alloc('BuildTask', {'GIT': 'git'}))
+    scope.set('flags', None)
+    scope.set('repository', I.fresh(STR, 'repository'))
+    scope.set('ref', 'master')
+    scope.set('checkout_dir', I.fresh(STR, 'checkout_dir'))
+    scope.set('log', I.alloc('File', {}))
+
+
+def two_step_check(qual, first, second):
+    def check(I, scope, outcome):
+        return build_check(I, scope, outcome, L=f'{CODEF}::{qual}', first=first, second=second)
+    return check
+
+
+def build_check(I, scope, outcome, L=None, first='configure', second='build'):
+    from pyvc.engine import _b
+    L = L or f'{CODEF}::BuildTask.cmake_build_sys.build_sys'
+    p = I.path
+    runs = [e for e in I.trace if e[0] == 'run']
+    if outcome[0] != 'return':
+        return
+    D = I.world.enum_const('TaskStatus', 'DONE')
+    res = outcome[1]
+    first_ok = I.codes[0].t == 0 if I.codes else z3.BoolVal(False)
+    p.oblige(f'{L}::post::C19-the-{second}-step-is-run-exactly-when-the-{first}-step-exited-with-zero',
+             z3.And(z3.Implies(first_ok, z3.BoolVal(len(runs) == 2)), z3.Implies(z3.Not(first_ok), z3.BoolVal(len(runs) == 1))) if 1 <= len(runs) <= 2 else False,
+             kind='post', meta={'expr': 'run(configure); run(build) iff the return code of configure is 0'})
+    all_zero = z3.And(*[c.t == 0 for c in I.codes]) if I.codes else z3.BoolVal(False)
+    ok = isinstance(res, SV) and res.typ == T('Enum', 'TaskStatus')
+    p.oblige(f'{L}::post::C19-DONE-exactly-when-both-steps-were-run-and-exited-with-zero',
+             (res.t == D.t) == z3.And(all_zero, z3.BoolVal(len(runs) == 2)) if ok else False, kind='post',
+             meta={'expr': 'result == DONE  <=>  configure and build both exited with 0'})
+
+
 def units(tier):
-    return ['run', 'sanitize', 'ownership', 'runner', 'cap_paths', 'python_task_do', 'native']
+    return ['run', 'sanitize', 'ownership', 'runner', 'cap_paths', 'python_task_do', 'build_sys', 'checkout_vcs', 'native']
 
 
 def _replay_native(name, inp):
@@ -428,6 +505,16 @@ def run_unit(unit, tier, seed, known):
             res = verify_function(do_world(), c_do(variant), setup=do_setup(variant), extra_check=do_check(variant))
             out.append(prop.discharge(res, tier, ID, lambda m, r: {'note': 'see model text'}, _replay_native))
         return {'functions': out}
+    if unit == 'build_sys':
+        w = build_world()
+        w.class_models['File'] = type('File', (ClassModel,), {'name': 'File', 'fields': {}})(w)
+        res = verify_function(w, c_build_sys(), setup=build_setup, extra_check=build_check)
+        return {'functions': [prop.discharge(res, tier, ID, lambda m, r: {'note': 'see model text'}, _replay_native)]}
+    if unit == 'checkout_vcs':
+        w = build_world()
+        w.class_models['File'] = type('File', (ClassModel,), {'name': 'File', 'fields': {}})(w)
+        res = verify_function(w, c_checkout_vcs(), setup=checkout_setup, extra_check=two_step_check('CheckoutTask.__init__.checkout_vcs', 'clone', 'checkout'))
+        return {'functions': [prop.discharge(res, tier, ID, lambda m, r: {'note': 'see model text'}, _replay_native)]}
     if unit == 'runner':
         w = make_runner_world()
         w.globals['NUL'] = '\x00'
